@@ -21,9 +21,8 @@ impl RngCore for ThreadRng {
         4
     }
     fn fill_bytes(&mut self, dst: &mut [u8]) {
-        for b in dst.iter_mut() {
-            *b = 4;
-        }
+        // memset, not a loop: no unwinding bound needed in harnesses that build a manager
+        unsafe { core::ptr::write_bytes(dst.as_mut_ptr(), 4u8, dst.len()) };
     }
 }
 pub trait Rng: RngCore {}
